@@ -19,10 +19,11 @@
 (* against the real libraries over the bounded domain (GlobCal / DockCal    *)
 (* records); constructs on which the libraries have surprising character    *)
 (* level behaviour ("a**", "[^x]" in Docker patterns, escapes, braces) are  *)
-(* outside the token grammar; so are consecutive "**" components after a    *)
-(* literal one in Mutagen patterns (doublestar: "a/**" matches "a" but       *)
-(* "a/**/**" does not) - found by the random leg, removed from the          *)
-(* generator rather than argued about.                                      *)
+(* outside the token grammar; so are, in Mutagen patterns, a "**" component  *)
+(* directly after another "**" component or after a multi-token component   *)
+(* ending in "*" (doublestar: "a/**" matches "a" but "a/**/**" does not;     *)
+(* "b/**" matches "b" but "b*/**" does not) - found by the random leg,       *)
+(* removed from the generator rather than argued about.                     *)
 (***************************************************************************)
 EXTENDS Naturals, Sequences, FiniteSets, TLC
 
